@@ -151,6 +151,9 @@ var tagPool = []string{
 	`{"type":"poll","data":{"group":"g","id":"i"}}`, `{"type":"http","data":{"url":"http://h/x"}}`, `{"type":"poll"}`,
 	`{"type":"pigeon","data":{}}`, `{"type":"","data":{}}`, `{"type":"poll","data":{"group":"g"},"extra":1}`, `{"data":{"group":"g"}}`,
 	`{"type":"poll","data":null}`, `{"type":"http","data":[1,2]}`, ` {"type" : "poll", "data" : {"group" : "g"}} `, `{"type":5}`,
+	// a JSON value followed by something else is not JSON: the tag is a plain name
+	`{"type":"poll","data":{"group":"g"}} }`, `{"type":"poll","data":{"group":"g"}},`, `{"type":"poll","data":{"group":"g"}}{"type":"http","data":{"url":"http://h/x"}}`,
+	`{"type":"http","data":{"url":"http://h/x"}} # note`, `null and void`, `{} workers`, `"quoted" x`, `5 6`, `true,`,
 }
 
 func cmdRoute(args []string) {
